@@ -492,6 +492,12 @@ void SubprocessSet::Clear() {
     for (Subprocess* s : running_) {
       FinishCmd(s->pid_);
       g_cur.res->cmds[s->pid_].unreaped = true;
+      // (a console command writes to the terminal itself, up to its end, while ~Subprocess waits for it)
+      const RunCmd& rc = g_cur.res->cmds[s->pid_];
+      if (s->use_console_ && !rc.output.empty()) {
+        fflush(stdout);
+        (void)!write(1, rc.output.data(), rc.output.size());
+      }
       delete s;
     }
     running_.clear();
